@@ -140,10 +140,8 @@ theorem okPiece_sep (d : Backend) (inl : Bool) (nxt : Option Char) (p : Piece)
   cases p with
   | s t => simp_all [okPiece, contentOK]
   | raw t =>
-    simp only [contentOK, Bool.and_eq_true, Bool.not_eq_true', List.all_eq_true] at hc
-    have hpl : t.all (plainChar d) = true := by
-      simp only [List.all_eq_true]; intro c hcm; exact digit_plain d c (hc.2 c hcm)
-    simp [okPiece, hpl, hpf]
+    simp only [contentOK, Bool.and_eq_true] at hc
+    simp [okPiece, hc.2, hpf]
   | id n => simp_all [okPiece]
   | c v => simp only [contentOK] at hc; simp [okPiece, hlit v hc]
   | p v =>
